@@ -121,12 +121,39 @@ class OrderedScan:
     bound: List[Tuple[Term, bool]] = field(default_factory=list)  # (test, exact?)
     exits: List[Term] = field(default_factory=list)  # continuation tests other than the bound
     posname: str = ""
+    element: Optional[Term] = None  # element form (`for t in order`): the term of the element examined
+
+    def examined(self, order: Term) -> Term:
+        """The element of `order` examined in an iteration."""
+        return self.element if self.element is not None else ("idx", order, self.pos)
 
 
-def ordered_scan(w: Walker, bs: BestScan, sizes: List[Term]) -> OrderedScan:
-    """`sizes`: terms denoting the number of elements of the order scanned."""
+def _loop_exits(w: Walker, li: LoopInfo) -> List[Term]:
+    """Continuation tests spelt as `if c: break` in a for loop."""
+    from .ir import facts, mk_not
+    out = []
+    base = set(facts(li.guards))
+    for e in w.events:
+        if e.kind == "break" and e.loops and e.loops[-1] == li.lid:
+            own = [f for f in facts(e.guards) if f not in base]
+            if len(own) == 1:
+                out.append(mk_not(own[0]))
+            else:
+                out.append(("not", ("and", tuple(own))))
+    return out
+
+
+def ordered_scan(w: Walker, bs: BestScan, sizes: List[Term], orders: Tuple[Term, ...] = ()) -> OrderedScan:
+    """`sizes`: terms denoting the number of elements of the order scanned; `orders`: the sequences whose element loop
+    (`for t in order`) is a scan of all positions from 0."""
     from .ir import facts, mk_not
     li = bs.loop
+    if li.kind == "for" and li.domain in orders:
+        P = ("iter", li.domain, li.lid)
+        v = OrderedScan(bs, "for", ("undef",), None, ("const", 0), posname=show(P), element=P)
+        v.bound.append((("cmp", "<", ("undef",), ("call", ("builtin", "len"), (li.domain,), ())), True))
+        v.exits = _loop_exits(w, li)
+        return v
     if li.kind == "while":
         pos = position_vars(li)
         if len(pos) != 1:
@@ -178,14 +205,7 @@ def ordered_scan(w: Walker, bs: BestScan, sizes: List[Term]) -> OrderedScan:
             v.problems.append(("position", f"the scan advances by {show(a[2])} positions per iteration"))
         c = ("cmp", "<", P, hi)
         v.bound.append((c, exact))
-        base = set(facts(li.guards))
-        for e in w.events:
-            if e.kind == "break" and e.loops and e.loops[-1] == li.lid:
-                own = [f for f in facts(e.guards) if f not in base]
-                if len(own) == 1:
-                    v.exits.append(mk_not(own[0]))
-                else:
-                    v.exits.append(("not", ("and", tuple(own))))
+        v.exits = _loop_exits(w, li)
         return v
     v = OrderedScan(bs, li.kind, ("undef",), None, None)
     v.problems.append(("position", f"unsupported scan loop kind {li.kind}"))
